@@ -149,10 +149,21 @@ def attempt(f, *args, **kwargs):
 
 
 def native_attempt(f, *args, **kwargs):
+    """run f natively under CPython's ordinary recursion limit (the interpreter itself needs a
+    much larger one, under which a runaway native recursion would take gigabytes before failing)"""
+    old = sys.getrecursionlimit()
+    depth = 0
+    fr = sys._getframe()
+    while fr is not None:
+        depth += 1
+        fr = fr.f_back
+    sys.setrecursionlimit(depth + 1000)
     try:
         return Outcome(value=f(*args, **kwargs))
     except Exception as e:
         return Outcome(exc=e)
+    finally:
+        sys.setrecursionlimit(old)
 
 
 def same_outcome(model, sym, nat):
